@@ -593,6 +593,13 @@ SubprocessResult run_process(const vector<string>& cmd, const string* stdin_data
           if (errno == EAGAIN || errno == EINTR || errno == EWOULDBLOCK) {
             continue;
           }
+          if (errno == EPIPE) {
+            // The child closed its stdin (or exited) without reading all of
+            // the input; like in Subprocess::communicate this is not an error
+            p.remove(pfd.first, true);
+            write_fd_to_buffer.erase(pfd.first);
+            continue;
+          }
           throw runtime_error("write failed: " + string_for_error(errno));
         } else { // bytes_written == 0; usually means the pipe is broken
           p.remove(pfd.first, true);
